@@ -26,6 +26,7 @@ RULE = ("One evaluation = one seeded execution of 2-3 real clients driven by "
         "state, input) transitions reached via the machines' own trace hooks.")
 RULE += (' The words of an interactive code entry may be entered after the wormhole closed or failed under the prompt.')
 RULE += (" A when_wordlist_is_available() Deferred's callback calls back into the library (completions, choose_words or close).")
+RULE += (' A ninth configuration makes both sides dilate the moment the verifier is known, on a reordering server.')
 LEVEL_TEXT = ("Seeded exploration of the composed client (13 mailbox machines "
               "+ Dilator) for reachable-but-undeclared (state, input) pairs. "
               "Gating configuration generates only calls whose legality the "
@@ -53,7 +54,14 @@ def configs(tier):
                     "fault_initial": i == 6,
                     "variant": ("same", "same", "welcome_error", "crowded",
                                 "wrong", "crowded", "same", "same")[i]})
+    # the ninth: both sides dilate the moment the first peer message has
+    # decrypted, on a server that does not keep the order of messages
+    out.append({"spake": "stub", "dilate": True, "reorder_heavy": True,
+                "variant": "same", "dilate_early": True})
     return out
+
+
+DILATE_EARLY = [False]
 
 
 def grammar(tape, c, code_ops, other, dilate, pairable=True):
@@ -119,7 +127,7 @@ def grammar(tape, c, code_ops, other, dilate, pairable=True):
     if dilate and c.api == "deferred":
         dpos = tape.choose(len(out) + 1, "dpos")
         out.insert(dpos, ("dilate", {"no_listen": not DILATE_LISTEN[0]}))
-        if tape.choose(2, "d_after_verifier") == 0:
+        if tape.choose(2, "d_after_verifier") == 0 or DILATE_EARLY[0]:
             # the common idiom: `await w.get_verifier(); w.dilate()` - dilate
             # the moment the first peer message has decrypted
             out.insert(dpos, ("wait_event_or_steps", "verifier",
@@ -157,6 +165,7 @@ DILATE_LISTEN = [False]
 
 def run_one(seed, tape, opts):
     DILATE_LISTEN[0] = bool(opts.get("dilate_listen"))
+    DILATE_EARLY[0] = bool(opts.get("dilate_early"))
     variant = opts.get("variant", "same")
     welcome = {"error": "sim says no"} if variant == "welcome_error" else {}
     w = MailboxWorld(tape, dict(opts, late_words=True, wordlist_cb=True),
